@@ -5,6 +5,7 @@ import (
 	"fmt"
 	"math"
 	"math/big"
+	"math/bits"
 
 	"github.com/tuneinsight/lattigo/v6/utils"
 	"github.com/tuneinsight/lattigo/v6/utils/bignum"
@@ -37,11 +38,19 @@ func NewPolynomial(coeffsStr [][]string) Polynomial {
 	return Polynomial(polys)
 }
 
+// MaxDepth returns the largest number of rescalings that the evaluation of one of the polynomials consumes.
 func (mcp Polynomial) MaxDepth() (depth int) {
 	for i := range mcp {
-		depth = utils.Max(depth, mcp[i].Depth())
+		depth = utils.Max(depth, Depth(mcp[i]))
 	}
 	return
+}
+
+// Depth returns the number of rescalings consumed by the homomorphic evaluation of p: ceil(log2(degree+1)).
+// It exceeds [bignum.Polynomial.Depth] (a number of multiplications) by one when the degree is a power of two.
+func Depth(p bignum.Polynomial) int {
+	/* #nosec G115 -- Degree cannot be negative */
+	return bits.Len64(uint64(p.Degree()))
 }
 
 func (mcp Polynomial) Evaluate(x interface{}) (y *bignum.Complex) {
